@@ -18,6 +18,7 @@ PROPERTIES = {
     'C01': ['c01'],
     'C02': ['c02', 'c03', 'c11', 'c13'],
     'C03': ['c03', 'c11'],
+    'C04': ['c04'],
     'C05': ['c05', 'c19'],
     'C06': ['c06'],
     'C07': ['c07'],
